@@ -9,6 +9,8 @@ import (
 	"sort"
 	"strings"
 	"sync"
+
+	"golang.org/x/tools/go/ssa"
 )
 
 // OblResult is the outcome of one obligation.
@@ -167,7 +169,7 @@ func splitTop(s string, sep byte) []string {
 // whose statement is about opaque function name.
 func lemmasAbout(specs *Specs, name string, before int) []*Lemma {
 	var out []*Lemma
-	for _, l := range specs.Lemmas {
+	for _, l := range append(append([]*Lemma{}, specs.Foreign...), specs.Lemmas...) {
 		if !l.Export || l.Order >= before {
 			continue
 		}
@@ -285,6 +287,14 @@ func proveLemmaPart(prog *Prog, specs *Specs, l *Lemma, tier string, c *checkCtx
 		}
 		sort.Strings(names)
 		for _, n := range names {
+			if fs := specs.Funcs[n]; fs != nil && len(fs.Ensures) > 0 && !doneAx["contract:"+n] {
+				doneAx["contract:"+n] = true
+				changed = true
+				x.sc.Comment("contract of " + n + " (its verification conditions are discharged separately)")
+				for _, ax := range x.contractAxioms(pkgOf(x.usedOpq[n]), x.usedOpq[n], fs) {
+					x.sc.Assert(ax)
+				}
+			}
 			for _, m := range lemmasAbout(specs, n, l.Order) {
 				if doneAx[m.Name] {
 					continue
@@ -292,7 +302,11 @@ func proveLemmaPart(prog *Prog, specs *Specs, l *Lemma, tier string, c *checkCtx
 				doneAx[m.Name] = true
 				changed = true
 				x.sc.Comment("axioms from lemma " + m.Name)
-				for _, ax := range x.axiomsOf(pkg, m) {
+				mpkg := pkg
+				if pth, ok := specs.ForeignOf[m]; ok {
+					mpkg = prog.PPkgs[pth].Types
+				}
+				for _, ax := range x.axiomsOf(mpkg, m) {
 					x.sc.Assert(ax)
 				}
 			}
@@ -584,4 +598,52 @@ func decideLight(name, q string, timeout int) OblResult {
 func quantifiedGoal(q string) bool {
 	i := strings.LastIndex(q, "(assert (not ")
 	return i >= 0 && (strings.Contains(q[i:], "(forall ") || strings.Contains(q[i:], "(exists "))
+}
+
+// contractAxioms renders a function contract (requires => ensures with the
+// result replaced by the function symbol) as quantified axioms, for use where
+// the function is referenced opaquely. The contract itself is a set of
+// verification conditions discharged in VC mode.
+func (x *X) contractAxioms(pkg *types.Package, fn *ssa.Function, fs *FuncSpec) []string {
+	saveInline, saveSt, saveUnfold := x.inline, x.st, x.unfold
+	x.inline = true
+	x.unfold = map[string]bool{}
+	x.st = x.st.clone()
+	x.noOblig++
+	defer func() { x.inline, x.st, x.unfold = saveInline, saveSt, saveUnfold; x.noOblig-- }()
+	var vars []VarDecl
+	for _, p := range fn.Params {
+		vars = append(vars, VarDecl{p.Name(), types.TypeString(p.Type(), func(q *types.Package) string {
+			if q == pkg {
+				return ""
+			}
+			return q.Name()
+		})})
+	}
+	env, decls, guards := x.boundVars(pkg, vars, "v!"+sanitize(fs.Name)+"!")
+	var args []Val
+	for _, p := range fn.Params {
+		args = append(args, env.vars[p.Name()].V)
+	}
+	res := x.opaqueApp(fn, args)
+	bindResult(env, res, resultType(fn.Signature))
+	env.old = x.st
+	reqs := append([]string{}, guards...)
+	for _, r := range fs.Requires {
+		reqs = append(reqs, x.evalBool(env, r))
+	}
+	var flat []string
+	for _, s := range x.flatten(res) {
+		flat = append(flat, s.T)
+	}
+	var out []string
+	for _, e := range fs.Ensures {
+		body := implies(and(reqs...), x.evalBool(env, e))
+		if len(decls) == 0 {
+			out = append(out, body)
+			continue
+		}
+		out = append(out, fmt.Sprintf("(forall (%s) (! %s :pattern (%s)))", strings.Join(decls, " "), body, flat[0]))
+	}
+	return out
 }
